@@ -71,6 +71,16 @@ PROPS = {
   "streams": [st("modes", 3000, 150000), eng(2000, 60000)],
   "trusted_base": ENGINE_TB, "assumptions": ENGINE_ASSUME,
  },
+ "C15": {
+  "module": "Zog.Props.C15",
+  "theorems": [P + "C15." + t for t in ["tables_as_documented", "get_head_read_query", "params_ignored", "body_methods_by_media_type", "repeated_is_list", "single_is_string", "bracket_suffix_is_list", "missing_is_absent", "decode_failure_contract", "empty_object_all_absent"]],
+  "streams": [st("http", 2500, 20000)],
+  "trusted_base": ["regenerated (go/ast): Gen.httpMethods / Gen.httpTypes / Gen.httpCutSep — the two switch statements of zhttp.Request",
+                   "modelled, not verified: lean/Zog/Http.lean mirrors zhttp.Request and urlDataProvider.Get; the decode-failure branch mirrors struct.go process (factory branch)",
+                   "external, supplied per case from the standard library directly: net/http ParseForm (body + query merge), encoding/json"] + ENGINE_TB,
+  "assumptions": ["only 'parameters are ignored' is demanded of Content-Type handling (not case folding or whitespace before ';')",
+                  "a top-level Ptr(Struct) treats the empty JSON object as absent (pinned by the repository's TestTopLevelOptionalStruct)"],
+ },
  "C16": {
   "module": "Zog.Props.C16",
   "theorems": [P + "C16." + t for t in ["clone_copies", "heap_refines_pure", "pure_step_frame", "heap_step_frame", "pick_fields", "omit_fields", "union_fields", "merge_tests"]],
